@@ -227,7 +227,7 @@ class Run:
         bad_cover = [n for n, ok in covers if not ok]
         if bad_cover:
             raise SourceError(f"vacuous contract: precondition unsatisfiable for {bad_cover}")
-        if not obs:
+        if not obs and not self.unsupported and not self.bounded_parts:
             raise SourceError("zero obligations generated")
         if os.environ.get("VERIF_DEBUG"):
             for o in obs:
